@@ -256,3 +256,17 @@ LEVEL_NOTE = (LEVEL_NOTE.replace("and Spec/Cal.v as a model of CPython's datetim
                 "spec side is that the C accelerator _datetime agrees with _pydatetime (covered by the exhaustive cal-spec correspondence).")
 LEVEL_TEXT = (LEVEL_TEXT + " The specification Spec/Cal.v itself is proved equal, for every year and every ordinal, to the translation of "
               "CPython's own pure-Python calendar source (_pydatetime.py).")
+
+
+# rust/src/helpers.rs is translated from /repo on every run and the hand model Model/RustHelpers.v is PROVED equal to the translation
+TRUSTED = list(TRUSTED) + [
+    "tools/vlib/rust2gallina.py + tools/vlib/gens/g58_rust_helpers.py (a fail-closed Rust-subset translator: tokenizer, recursive-descent parser, typed emission with integer-type "
+    "inference; Rust semantics as read by it: overflow-checks = false so + - * wrap in the operand type (coq/Model/RustInt.v; isize / usize 64-bit), / and % truncate and need a statically "
+    "positive divisor, `as` wraps unless the source type fits, T::from / into / try_into().unwrap() are checked value-preserving conversions, A[i] = tidx (a panic on an out-of-range index is "
+    "the marker OOB), `while` = a fuel-based Fixpoint with the fuel stated by the generator, an f64 parameter only as <p>.floor() as i64): it replaces the former trust in the hand transcription "
+    "coq/Model/RustHelpers.v, now PROVED equal to the translation (model_is_code_rs_is_leap / _days_in_year for every integer; _is_long_year / _week_day / _day_number / _local_time on stated "
+    "ranges inside which nothing wraps; closed under the global context). Still trusted: rustc's semantics of this subset as read above, pyo3's argument conversion",
+]
+LEVEL_NOTE = LEVEL_NOTE + (" Compiled backend = model: coq/Gen/RustHelpersGen.v is translated from rust/src/helpers.rs on every run and Proofs/RustHelpersGenFacts.v proves it equal to Model/RustHelpers.v, "
+                           "so a semantic edit of is_leap, is_long_year, days_in_year, week_day, day_number or local_time breaks a proof or fails closed (self-tested by mutation) instead of only a "
+                           "source pin; rs_wraps_outside_the_range shows that the stated ranges matter (the compiled code wraps, the hand model does not).")
